@@ -38,9 +38,9 @@ func (r *Rand) Intn(n int) int {
 	}
 	return int(r.U64() % uint64(n))
 }
-func (r *Rand) Bool() bool          { return r.U64()&1 == 1 }
+func (r *Rand) Bool() bool            { return r.U64()&1 == 1 }
 func (r *Rand) Chance(p float64) bool { return float64(r.U64()%1000000)/1000000 < p }
-func (r *Rand) Fork() *Rand         { return NewRand(r.U64()) }
+func (r *Rand) Fork() *Rand           { return NewRand(r.U64()) }
 func (r *Rand) Perm(n int) []int {
 	p := make([]int, n)
 	for i := range p {
@@ -350,7 +350,7 @@ func withTimeout(d time.Duration, f func()) bool {
 	select {
 	case <-done:
 		return true
-	case <-time.After(d):
+	case <-patient(d):
 		return false
 	}
 }
@@ -383,4 +383,48 @@ func sortedKeys(m map[string]interface{}) []string {
 	}
 	sort.Strings(ks)
 	return ks
+}
+
+// patient is time.After for the harness's own verdicts ("did not return within d"): the deadline is counted in twenty
+// steps, and a step that took far longer than it should - the process or the whole machine was stopped for a while,
+// a snapshot, a debugger - does not count. A single long timer would fire together with everything else the moment
+// the process resumes, and the select that waits for it would report a hang that never was.
+func patient(d time.Duration) <-chan struct{} {
+	ch := make(chan struct{})
+	go func() {
+		step := d / 20
+		if step <= 0 {
+			step = time.Millisecond
+		}
+		for good := 0; good < 20; {
+			t0 := time.Now()
+			time.Sleep(step)
+			if time.Since(t0) < 3*step+50*time.Millisecond {
+				good++
+			}
+		}
+		close(ch)
+	}()
+	return ch
+}
+
+// patience is a deadline for the harness's polling loops that only counts time the process was seen running: the
+// time between two looks counts for at most a quarter of a second, so a stop of the process (or of the machine) in the
+// middle does not turn into "did not settle within ...".
+type patience struct {
+	budget, used time.Duration
+	last         time.Time
+}
+
+func newPatience(d time.Duration) *patience { return &patience{budget: d, last: time.Now()} }
+
+func (p *patience) expired() bool {
+	now := time.Now()
+	e := now.Sub(p.last)
+	if e > 250*time.Millisecond {
+		e = 250 * time.Millisecond
+	}
+	p.used += e
+	p.last = now
+	return p.used >= p.budget
 }
